@@ -285,6 +285,7 @@ func (g Gateway) Set(ctx context.Context, in *hydrapb.SetRequest) (*hydrapb.SetR
 			response := make([]*hydrapb.KeyStatusPair, 0)
 
 			for _, item := range swampRequest.GetKeyValues() {
+				verifhook.Point("gateway.set.key", verifhook.ID(swampInterface))
 
 				// if "create if not" exist is false and the treasure does not exist
 				if !swampRequest.GetCreateIfNotExist() && !swampInterface.TreasureExists(item.Key) {
